@@ -106,13 +106,19 @@ func (m *MonC20) OnEvent(w *World, rec *StepRec) []*Violation {
 				}
 			}
 		}
+		var mixed []string
 		for _, p := range rec.MixedPayloads {
 			k := pkey(pb.EntryNormal, p)
 			m.known[k] = true
 			if pre.State == raft.StateLeader && rec.OpErr == nil {
 				m.handed[k]++
-				acceptedPayloads = append(acceptedPayloads, k)
+				mixed = append(mixed, k)
 			}
+		}
+		if rec.ConfLast {
+			acceptedPayloads = append(mixed, acceptedPayloads...)
+		} else {
+			acceptedPayloads = append(acceptedPayloads, mixed...)
 		}
 		if pre.State == raft.StateLeader && rec.OpErr == nil {
 			acceptedHere = len(rec.PropPayloads) + len(rec.MixedPayloads)
